@@ -4,7 +4,8 @@ normalised source text of every modelled function -> lean/Babylon/Gen/Counter.le
  * constants (compiled probe): cache-line size, NUM_PER_CACHELINE of every counter kind, block sizes
    of the storage vectors, initial values of the never-reused instance id counter and of the
    per-thread cache, the comparer's EXTREMUM and the slot's initial version
- * flags the model follows (so the model is the code as it is, before or after a repair):
+ * flags the model follows (two of them were false before the repairs f87c6ba / aff20d8 in /repo; the
+   Properties file pins all of them to the repaired / present shape):
      forEachU16Cast       for_each bounds the walk by static_cast<uint16_t>(snapshot.size())
      feaClipped           the non-const for_each_alive clips the live id ranges to the snapshot size
      feaConstClipped      the const one does
@@ -89,9 +90,8 @@ def generate():
 
     items.append(bool_def("feaClipped", clipped(fa[0])))
     items.append(bool_def("feaConstClipped", clipped(fa[1])))
-    strip = lambda s: s.replace(clip, "").replace("uint16_tsize=snapshot.size();", "")
-    items.append(lean_str("src_etl_for_each_alive", strip(fa[0])))
-    items.append(lean_str("src_etl_for_each_alive_const", strip(fa[1])))
+    items.append(lean_str("src_etl_for_each_alive", fa[0]))
+    items.append(lean_str("src_etl_for_each_alive_const", fa[1]))
     # the Compact wrappers (for_each x2, for_each_alive x2) are the overloads 2,3 of the same heads
     cfe = [norm(function_body(tl, r"inline\s+void\s+for_each\s*\(\s*C&&\s*callback\s*\)", n)) for n in (2, 3)]
     cfa = [norm(function_body(tl, r"inline\s+void\s+for_each_alive\s*\(\s*C&&\s*callback\s*\)", n)) for n in (2, 3)]
@@ -130,7 +130,7 @@ def generate():
     items.append(lean_str("src_cmp_put", norm(function_body(ch, r"ConcurrentComparer&\s*operator<<\s*\(\s*T\s+value\s*\)"))))
     cv = norm(function_body(ch, r"bool\s+value\s*\(\s*T&\s*compare_value\s*\)"))
     items.append(bool_def("cmpFirstGuard", "if(!has_result||_comparer(slot.value,result))" in cv))
-    items.append(lean_str("src_cmp_value", cv.replace("!has_result||", "")))
+    items.append(lean_str("src_cmp_value", cv))
     items.append(lean_str("src_cmp_value0", norm(function_body(ch, r"T\s+value\s*\(\s*\)\s*const\s*noexcept\s*\{\s*T\s+compare_value"))))
     items.append(lean_str("src_cmp_reset", grab(r"voidreset\(\)noexcept(\{\+\+_version;\})", "comparer reset")))
     items.append(lean_str("src_cmp_slot", grab(r"structSlot(\{.*?Tvalue;\});", "comparer Slot")))
